@@ -1460,7 +1460,8 @@ def adjust_notesequence_times(ns, time_func, minimum_duration=None):
       adjusted_ns.pitch_bends,
       adjusted_ns.time_signatures,
       adjusted_ns.key_signatures,
-      adjusted_ns.text_annotations
+      adjusted_ns.text_annotations,
+      adjusted_ns.section_annotations
   )
 
   for event in events:
